@@ -164,6 +164,22 @@ CLAIMED = {
                      "correspondence + trace oracle",
         "design_ref": "DESIGN.md section 7 (C10)",
     },
+    "C12": {
+        "text": "Theorems: C12_fault_surfaces (a writer call is a straight-line list of destination operations; on destinations "
+                "with ANY fault plan - the k-th write, seek or flush of either file, one-shot or persistent - exactly a prefix of "
+                "the operations is applied, the call returns Ok exactly when nothing remained and otherwise the injected error "
+                "of the first failing operation: from this very call, never a panic, never a success), C12_finalize_any, "
+                "C12_retry (a failed finalize leaves the writer dirty and the record regions intact - any partially rewritten "
+                "header slot - so calling it again on working destinations completes both files byte for byte as an undisturbed "
+                "run), C12_reachable, C12_drop, C12_chunking (write_all over short writes delivers exactly the bytes). Tie: for "
+                "EVERY k over the operations each workload really issues on each destination, one-shot and persistent, with "
+                "heal + retry; short-write schedules incl. the 19/20/21-byte boundary of the header padding.",
+        "note": COMMON_NOTE + "write_all and its WriteZero/Interrupted handling are std code, modelled (write_all_loop). A "
+                "write_shape that fails loses that shape: the retry claim is for finalize, as the property states.",
+        "technique": "Coq proof (prefix semantics of operation lists under arbitrary fault plans; header-slot invariant for "
+                     "partially executed finalize) + exhaustive fault-index correspondence + short-write oracle",
+        "design_ref": "DESIGN.md section 7 (C12)",
+    },
     "C13": {
         "text": "Theorems: C13_truncation (every conformant file of any of the 14 types, cut at ANY length from the end of the "
                 "header to one byte before its end, read sequentially: exactly the records wholly inside the retained bytes are "
